@@ -47,6 +47,48 @@ func actBuild(e *Env, a J) J {
 	switch fn {
 	case "Reset":
 		b.cont.Reset()
+	case "Edit":
+		// the caller changes the payload the last call made, in place (Builders!EditPayload)
+		if n := len(b.cont); n > 0 {
+			flip := func(x []byte) {
+				if len(x) > 0 {
+					x[0] = 255 - x[0]
+				}
+			}
+			switch p := b.cont[n-1].(type) {
+			case *message.Notification:
+				flip(p.NotificationData)
+			case *message.Certificate:
+				flip(p.CertificateData)
+			case *message.KeyExchange:
+				flip(p.KeyExchangeData)
+			case *message.IdentificationInitiator:
+				flip(p.IDData)
+			case *message.IdentificationResponder:
+				flip(p.IDData)
+			case *message.Authentication:
+				flip(p.AuthenticationData)
+			case *message.Nonce:
+				flip(p.NonceData)
+			case *message.CertificateRequest:
+				flip(p.CertificationAuthority)
+			case *message.VendorID:
+				flip(p.VendorIDData)
+			case *message.PayloadEap:
+				if p.EAP != nil {
+					switch d := p.EAP.EapTypeData.(type) {
+					case *eap.EapExpanded:
+						flip(d.VendorData)
+					case *eap.EapIdentity:
+						flip(d.IdentityData)
+					case *eap.EapNotification:
+						flip(d.NotificationData)
+					case *eap.EapNak:
+						flip(d.NakData)
+					}
+				}
+			}
+		}
 	case "Notification":
 		b.cont.BuildNotification(uint8(gi(c, "proto")), uint16(gi(c, "ntype")), oct("spi"), oct("data"))
 	case "Certificate":
